@@ -92,6 +92,8 @@ pub fn profile() -> Profile {
     p.net_w = [40, 22, 26, 12, 0, 0, 0, 0, 0];
     p.p_teleport = 1;
     p.p_mut = 25;
+    p.kind_w = [30, 8, 12, 16, 16, 4, 6, 2, 3];
+    p.seed_funds = true;
     p.grandfathered_faucet = true;
     p.warp = true;
     p
